@@ -26,8 +26,16 @@ def parseKind : String → Option Kind
   | "router" => some .router | "firewall" => some .firewall | _ => none
 def showKind : Kind → String
   | .computer => "computer" | .server => "server" | .switch => "switch" | .router => "router" | .firewall => "firewall"
-def parseState : String → Option (Option Bool)
-  | "-" => some none | "ON" => some (some true) | "OFF" => some (some false) | _ => none
+def parseState : String → Option (Option Power)
+  | "-" => some none | "ON" => some (some .on) | "OFF" => some (some .off) | "BOOTING" => some (some .booting)
+  | "SHUTTING_DOWN" => some (some .shuttingDown) | _ => none
+def showPower : Power → String
+  | .on => "ON" | .off => "OFF" | .booting => "BOOTING" | .shuttingDown => "SHUTTING_DOWN"
+def parseHealth : String → Option (Option Health)
+  | "-" => some none | "UNUSED" => some (some .unused) | "GOOD" => some (some .good) | "FIXING" => some (some .fixing)
+  | "COMPROMISED" => some (some .compromised) | "OVERWHELMED" => some (some .overwhelmed) | _ => none
+def showHealth : Health → String
+  | .unused => "UNUSED" | .good => "GOOD" | .fixing => "FIXING" | .compromised => "COMPROMISED" | .overwhelmed => "OVERWHELMED"
 
 def showRule (r : Rule) : String :=
   s!"{showAction r.action},{showOpt showProto r.proto},{showOpt showIp r.srcIp},{showOpt showIp r.srcWc}," ++
@@ -56,12 +64,12 @@ def showAclLines (h nm : String) (a : Acl) : List String :=
 def showInventory (inv : Inventory) : String :=
   let nodeLines := inv.nodes.flatMap fun n =>
     let h := n.hostname
-    [s!"node {h} {showKind n.kind} {if n.on then "ON" else "OFF"} sud={n.startUp} sdd={n.shutDown} dns={showOpt showIp n.dns} gw={showOpt showIp n.gateway}"]
-    ++ (enumFrom 1 n.nics).map (fun (i, c) => s!"nic {h} {i} {showOpt id c.name} {showOpt showIp c.ip} {showOpt showIp c.mask}")
+    [s!"node {h} {showKind n.kind} {showPower n.power} sud={n.startUp} sdd={n.shutDown} dns={showOpt showIp n.dns} gw={showOpt showIp n.gateway}"]
+    ++ (enumFrom 1 n.nics).map (fun (i, c) => s!"nic {h} {i} {showOpt id c.name} {showOpt showIp c.ip} {showOpt showIp c.mask} wired={showBool c.wired} en={showBool c.enabled}")
     ++ n.acls.flatMap (fun (nm, a) => showAclLines h nm a)
     ++ (enumFrom 0 n.routes).map (fun (i, r) => s!"route {h} {i} {showIp r.addr} {showIp r.mask} {showIp r.hop} {r.metric}")
     ++ (match n.defaultRoute with | some ip => [s!"defroute {h} {showIp ip}"] | none => [])
-    ++ n.software.map (fun sw => s!"sw {h} {sw.name} {if sw.isApp then "app" else "svc"} n={sw.live} {sw.opts}")
+    ++ n.software.map (fun sw => s!"sw {h} {sw.name} {if sw.isApp then "app" else "svc"} n={sw.live} st={if sw.running then "RUNNING" else if sw.isApp then "CLOSED" else "STOPPED"} h={showHealth sw.health} {sw.opts}")
     ++ n.users.map (fun u => s!"user {h} {u.name} {u.password} {showBool u.admin}")
     ++ n.folders.flatMap (fun fd => s!"folder {h} {fd.name}" ::
         fd.files.map (fun f => s!"file {h} {fd.name} {f.name} {showOpt toString f.size} {showOpt id f.ftype}"))
@@ -87,7 +95,7 @@ def step (s : St) : List String → St × String
     match parseKind kind, parseState st, parseNat? sud, parseNat? sdd, parseOpt parseIp dns, parseOpt parseIp gw,
           parseOpt parseIp ip, parseOpt parseIp mask, parseNat? np with
     | some k, some st, some sud, some sdd, some dns, some gw, some ip, some mask, some np =>
-      ({ s with nodes := { kind := k, hostname := host, on := st, startUp := sud, shutDown := sdd, dns := dns, gateway := gw,
+      ({ s with nodes := { kind := k, hostname := host, power := st, startUp := sud, shutDown := sdd, dns := dns, gateway := gw,
                            ip := ip, mask := mask, numPorts := np } :: s.nodes }, "ok")
     | _, _, _, _, _, _, _, _, _ => (s, "bad-op")
   | ["port", k, ip, mask] =>
@@ -123,8 +131,15 @@ def step (s : St) : List String → St × String
     match parseIp hop with
     | some hop => updNode s fun n => { n with defaultRoute := some hop }
     | none => (s, "bad-op")
-  | "svc" :: ty :: opts => updNode s fun n => { n with services := n.services ++ [{ isApp := false, type := ty, opts := parseOpts opts }] }
-  | "app" :: ty :: opts => updNode s fun n => { n with applications := n.applications ++ [{ isApp := true, type := ty, opts := parseOpts opts }] }
+  -- `svc|app <type> <starting health|-> <init starts 0|1> <options…>`
+  | "svc" :: ty :: hl :: ini :: opts =>
+    match parseHealth hl, parseBool ini with
+    | some hl, some ini => updNode s fun n => { n with services := n.services ++ [{ isApp := false, type := ty, opts := parseOpts opts, health := hl, initStarts := ini }] }
+    | _, _ => (s, "bad-op")
+  | "app" :: ty :: hl :: ini :: opts =>
+    match parseHealth hl, parseBool ini with
+    | some hl, some ini => updNode s fun n => { n with applications := n.applications ++ [{ isApp := true, type := ty, opts := parseOpts opts, health := hl, initStarts := ini }] }
+    | _, _ => (s, "bad-op")
   | ["user", nm, pw, adm] =>
     match parseOpt parseBool adm with
     | some adm => updNode s fun n => { n with users := n.users ++ [{ name := nm, password := pw, admin := adm }] }
